@@ -5,7 +5,7 @@ import traceback
 import z3
 
 from .values import *   # pylint: disable=wildcard-import
-from .path import Explorer, Obligation, Unsupported, PathEnd, discharge
+from .path import Explorer, Obligation, Unsupported, PathEnd, discharge, guarded_check
 from .interp import InterpBase, PyRaise, ReturnSig, exc_isinstance
 from .expr import ExprMixin
 from .stmt import StmtMixin
